@@ -761,6 +761,11 @@ def run_tuner(spec):
         tsd, res = orig_fetch(trial_ids)
         if cur["statuses"] is not None:
             polls.append(dict(cur))
+        # failure counts when this loop iteration begins (= what the loop's stop condition saw at the end of the previous
+        # one): the tuner's public counter and the harness ground truth
+        ts = getattr(tref.get("t"), "tuning_status", None)
+        cur["nf_before"] = int(ts.num_trials_failed) if ts is not None else 0
+        cur["gt_before"] = len(failed_seen)
         failed_seen.update(int(t) for t, (_, s) in tsd.items() if STATUS_NAME[s] == "failed")
         cur.update(statuses=[(int(t), STATUS_NAME[s]) for t, (_, s) in tsd.items()], results=[int(t) for t, _ in res], calls=[],
                    decisions={}, ss=list(stopped_by_sched))
@@ -772,9 +777,19 @@ def run_tuner(spec):
 
     def resume(trial_id, new_config=None):
         resumed.append((int(trial_id), int(trial_id) in errored or int(trial_id) in failed_seen))
+        starts.append(("resumed", int(trial_id), len(polls), cur.get("nf_before", 0), cur.get("gt_before", 0)))
         return orig_resume(trial_id, new_config)
 
     backend.resume_trial = resume
+    starts, tref = [], {}
+    orig_start = backend.start_trial
+
+    def start(config, checkpoint_trial_id=None):
+        trial = orig_start(config, checkpoint_trial_id)
+        starts.append(("started", int(trial.trial_id), len(polls), cur.get("nf_before", 0), cur.get("gt_before", 0)))
+        return trial
+
+    backend.start_trial = start
     o_res, o_rem, o_com, o_err = sch.on_trial_result, sch.on_trial_remove, sch.on_trial_complete, sch.on_trial_error
 
     def w_res(trial, result):
@@ -803,6 +818,7 @@ def run_tuner(spec):
                   n_workers=spec["workers"], sleep_time=0.0, max_failures=spec["max_failures"], callbacks=[],
                   wait_trial_completion_when_stopping=bool(spec.get("wait", False)),
                   save_tuner=False, tuner_name="verif-c13", print_update_interval=1e9, results_update_interval=1e9)
+    tref["t"] = tuner
     outcome = None
     sink = io.StringIO()
     try:
@@ -814,7 +830,7 @@ def run_tuner(spec):
         outcome = (type(e).__name__, str(e)[:200])
     if cur["statuses"] is not None:
         polls.append(dict(cur))
-    return dict(outcome=outcome, polls=polls, planned=bad, status=tuner.tuning_status, resumed=resumed,
+    return dict(outcome=outcome, polls=polls, planned=bad, status=tuner.tuning_status, resumed=resumed, starts=starts,
                 num_failed=int(tuner.tuning_status.num_trials_failed), shown_failed=sorted(failed_seen))
 
 
@@ -850,7 +866,8 @@ def _run(ctx, replay):
     ctx.rule = ("cases: (A) for each of 17 scheduler/searcher kinds, harness-enumerated failure placements "
                 "(before first report, between reports, after a resume, in the poll of a STOP/PAUSE report; 1-2 failures) "
                 "x seeds, 60-140 mini-tuner steps; (B) real Tuner runs (FIFO, Hyperband stopping/promotion, synchronous "
-                "Hyperband) with a faulty backend, 0-4 bad runs, max_failures 0..3; (C) failure-heavy Hyperband+GP histories "
+                "Hyperband) with a faulty backend, 0-4 bad runs, max_failures 0..3, incl. runs whose limit is exceeded early while "
+                "other trials run and the stopping criterion is far away (nothing may be started while winding down); (C) failure-heavy Hyperband+GP histories "
                 "against the model; non-trivial = at least one on_trial_error was delivered and the run went on for >= 10 "
                 "further steps (A), at least one failed/externally stopped run (B); distinct by content hash")
     rng = ctx.rng
@@ -1026,6 +1043,21 @@ def _run(ctx, replay):
             bad = {str(t): [rng.choice([0, 0, 2]), "failed", True] for t in range(ntr) if rng.random() < 0.5}
             specs.append(dict(kind=list(kind), seed=rng.randrange(10 ** 6), ntrials=ntr, workers=rng.randint(1, 3),
                               max_failures=rng.choice([0, 0, 1]), bad=bad, wait=rng.random() < 0.3))
+        # the limit is exceeded early, other trials still run, the tuner waits for them, and the ordinary stopping
+        # criterion is far away: nothing new may be started while waiting (own generator: earlier streams unchanged)
+        rngv = random.Random("C13-limit-wait-%d" % ctx.seed)
+        for _ in range(ctx.n(10, 100)):
+            kind = rngv.choice([("fifo", "random"), ("fifo", "random"), ("hb", "stopping", "random"), ("hb", "promotion", "random"),
+                                ("msr",), ("synchb", "random"), ("pbt",), ("fifo", "bayesopt")])
+            workers = rngv.randint(2, 4)
+            mf = rngv.randint(0, 2)
+            # mf + 1 early failures among the first trials, but at least one of the first `workers` trials runs long
+            first = list(range(workers + mf + 1))
+            survivor = rngv.randrange(workers)
+            early = rngv.sample([t for t in first if t != survivor], mf + 1)
+            bad = {str(t): [rngv.choice([0, 0, 1]), "failed", False] for t in early}
+            specs.append(dict(kind=list(kind), seed=rngv.randrange(10 ** 6), ntrials=rngv.randint(20, 30), workers=workers,
+                              max_failures=mf, bad=bad, wait=rngv.random() < 0.8, poll_cap=400))
         # directed (b-ckpt's scenario): one worker, every job fails before its first report
         specs.append(dict(kind=["synchb_custom", "min"], seed=2, ntrials=10, workers=1, max_failures=100,
                           bad={str(t): [0, "failed", False] for t in range(10)}, wait=False))
@@ -1154,6 +1186,21 @@ def _run(ctx, replay):
                           "(wait_trial_completion_when_stopping=%r, %d polls after the limit was exceeded)" % (
                               res["num_failed"], spec["max_failures"], spec.get("wait", False), later_polls),
                           case=case, signature=dict(part="tuner", check="failure_limit_not_enforced"))
+        # once the number of failed trials exceeds max_failures the run winds down: trials scheduled in the very iteration
+        # whose poll showed the excess are tolerated (the loop evaluates its stop condition at the end of an iteration);
+        # from the next iteration on nothing may be started or resumed, whatever wait_trial_completion_when_stopping says
+        late = [st_ for st_ in res["starts"] if st_[3] > spec["max_failures"] or
+                (st_[4] > spec["max_failures"] and not failed_resumed)]
+        ctx.h("B_starts_after_limit_exceeded", min(len(late), 3))
+        if late:
+            how, t, pi, nf, gt = late[0]
+            ctx.violation("property", "Tuner run: trial %d is %s in loop iteration #%d although the failure limit was already "
+                          "exceeded when that iteration began (num_trials_failed = %d, failed runs shown by the backend = %d, "
+                          "max_failures = %d, wait_trial_completion_when_stopping=%r); %d trials started/resumed after the limit "
+                          "was exceeded, outcome %r (spec %r)" % (t, how, pi, nf, gt, spec["max_failures"],
+                                                                  bool(spec.get("wait", False)), len(late), out, spec),
+                          case=case, signature=dict(part="tuner", check="trial_started_after_failure_limit_exceeded",
+                                                    wait=bool(spec.get("wait", False))))
         if named is not None and nfailed <= spec["max_failures"]:
             ctx.violation("property", "failed runs = %d <= max_failures = %d, but outcome %r" % (nfailed, spec["max_failures"], out),
                           case=case, signature=dict(part="tuner", check="error_below_failure_limit"))
